@@ -512,7 +512,7 @@ class RestAPI(object):
                     if (not isinstance(definition, str) or
                         len(definition) == 0 or len(definition) > MAX_STATE_MACHINE_LENGTH):
                         self.logger.error(
-                            "RestAPI CreateStateMachine: Invalid definition size for State Machine '{}'.".format(name)
+                            "RestAPI UpdateStateMachine: Invalid definition size for State Machine '{}'.".format(state_machine_arn)
                         )
                         return aws_error("InvalidDefinition"), 400
 
